@@ -24,8 +24,8 @@ using sim::Rng;
 
 namespace {
 
-enum OpKind : uint16_t { kValidStep, kCall, kBadBind, kBadAlign, kBadEmbedLabel, kBadEmbedDelta, kBadSection, kBadNamedLabel, kBadEmbedArray, kA64Form, kX86ShortJump, kX86Locked, kX86ZMask, kTooManyOperands, kDetachedEmit, kOpCount };
-const char* const kOpNames[kOpCount] = {"valid_step", "call", "bad_bind", "bad_align", "bad_embed_label", "bad_embed_label_delta", "bad_section", "bad_named_label", "bad_embed_array", "a64_form", "x86_short_jump", "x86_locked", "x86_zmask", "too_many_operands", "detached_emit"};
+enum OpKind : uint16_t { kValidStep, kCall, kBadBind, kBadAlign, kBadEmbedLabel, kBadEmbedDelta, kBadSection, kBadNamedLabel, kBadEmbedArray, kA64Form, kX86ShortJump, kX86Locked, kX86ZMask, kTooManyOperands, kDetachedEmit, kX86AbsAddr, kX86BadRegId, kOpCount };
+const char* const kOpNames[kOpCount] = {"valid_step", "call", "bad_bind", "bad_align", "bad_embed_label", "bad_embed_label_delta", "bad_section", "bad_named_label", "bad_embed_array", "a64_form", "x86_short_jump", "x86_locked", "x86_zmask", "too_many_operands", "detached_emit", "x86_abs_addr", "x86_bad_reg_id"};
 const char* op_name(uint16_t k) { return k < kOpCount ? kOpNames[k] : "?"; }
 
 enum HandlerMode { kHandlerNone = 0, kHandlerRecording, kHandlerThrowing, kHandlerModeCount };
@@ -508,6 +508,49 @@ CallResult perform(Subject& s, const gen::Program& prog, const Op& op, bool* mus
         if (!dst_is_vec) { *must_fail_out = true; s.last_must_fail_other = true; sim::count("c14.probe.zmask_without_vector_destination_or_mask"); }
         break;
       }
+      case kX86AbsAddr: {
+        // A memory operand that is an absolute address (no base): on a 32-bit target the address has to fit 32 bits (read
+        // as signed or unsigned); with an index register in 64-bit mode it has to be a sign-extended 32-bit value (without an
+        // index it becomes RIP-relative / relocated, which is fine).
+        if (s.target == gen::Target::kA64) break;
+        bool is64 = s.target == gen::Target::kX64;
+        static const uint64_t addrs[] = {0x100000004ull, 0x7FFFFFFFFFFFull, 0x8000000000000000ull, 0xFFFFFFFF7FFFFFFFull, 0x100000000ull, 0xFFFFFFFFull, 0x80000000ull, 0xFFFFFFFF80000000ull, 0x7FFFFFFFull, 0x1000ull};
+        uint64_t addr = addrs[size_t(uint64_t(op.a[0]) % 10)] + ((op.a[1] & 16) ? 0 : uint64_t(op.a[1] & 8));
+        bool with_index = (op.a[1] & 1) != 0;
+        bool fits_i32 = int64_t(addr) == int64_t(int32_t(uint32_t(addr))), fits_u32 = addr <= 0xFFFFFFFFull;
+        bool bad = is64 ? (with_index && !fits_i32) : (!fits_i32 && !fits_u32);
+        x86::Mem m = with_index ? x86::ptr(addr, is64 ? x86::Gp(x86::rbx) : x86::Gp(x86::ebx), uint32_t(op.a[2] & 3), 4) : x86::ptr(addr, 4);
+        if (bad) { *must_fail_out = true; s.last_must_fail_other = true; sim::count("c14.probe.absolute_address_not_encodable"); }
+        switch (uint64_t(op.a[2] >> 2) % 3) {
+          case 0: r.err = e.emit(x86::Inst::kIdMov, x86::ecx, m); break;
+          case 1: r.err = e.emit(x86::Inst::kIdAdd, m, x86::edx); break;
+          default: r.err = e.emit(x86::Inst::kIdCmp, m, Imm(int64_t(op.a[2] & 0x7f))); break;
+        }
+        break;
+      }
+      case kX86BadRegId: {
+        // A well-formed instruction in which ONE register id lies outside the register file of the mode: as base or index of
+        // a memory operand (general purpose registers: 8 in 32-bit mode, 16 in 64-bit mode), as {k} mask (k1..k7), or as a
+        // plain register operand. Ids inside the file are accepted - those calls are the control group.
+        if (s.target == gen::Target::kA64) break;
+        bool is64 = s.target == gen::Target::kX64;
+        uint32_t gp_count = is64 ? 16 : 8;
+        static const uint32_t ids[] = {0, 3, 7, 8, 15, 16, 17, 20, 31};
+        uint32_t id = ids[size_t(uint64_t(op.a[0]) % 9)];
+        RegType gp_type = is64 ? RegType::kGp64 : RegType::kGp32;
+        x86::Gp good = is64 ? x86::Gp(x86::rbx) : x86::Gp(x86::ebx);
+        Reg odd = Reg::from_type_and_id(gp_type, id);
+        bool bad = false;
+        switch (uint64_t(op.a[1]) % 5) {
+          case 0: { x86::Mem m = x86::ptr(good, 8, 4); m.set_base(odd); bad = id >= gp_count; r.err = e.emit(x86::Inst::kIdMov, x86::eax, m); break; }
+          case 1: { x86::Mem m = x86::ptr(good, good, 1, 8, 4); m.set_index(odd, 1); bad = id >= gp_count || id == 4 /* esp/rsp cannot be an index */; r.err = e.emit(x86::Inst::kIdMov, x86::eax, m); break; }
+          case 2: { bad = id == 0 || id >= 8; e.set_extra_reg(Reg::from_type_and_id(RegType::kMask, id)); r.err = e.emit(x86::Inst::kIdVaddps, x86::zmm(1), x86::zmm(2), x86::zmm(3)); break; }
+          case 3: { bad = id >= gp_count; r.err = e.emit(x86::Inst::kIdAdd, Reg::from_type_and_id(RegType::kGp32, id), x86::edx); break; }
+          default: { x86::Mem m = x86::ptr(good, 16, 16); m.set_base(odd); bad = id >= gp_count; r.err = e.emit(x86::Inst::kIdVaddps, x86::xmm(1), x86::xmm(2), m); break; }
+        }
+        if (bad) { *must_fail_out = true; s.last_must_fail_other = true; sim::count("c14.probe.x86_register_id_outside_the_file"); }
+        break;
+      }
       case kTooManyOperands: {
         // emit_op_array() with more operands than an instruction can have, while one-shot state is pending
         Operand ops[8];
@@ -617,7 +660,7 @@ void execute(const Plan& plan) {
         if (hm != kHandlerNone && op.kind != kBadNamedLabel && op.kind != kBadSection) {
           if (r.handler_calls == 0) sim::count("c14.probe.error_without_handler_call"); else if (r.handler_calls > 1) sim::count("c14.probe.handler_called_more_than_once");
           // The statement requires the error to be reported through the return value AND the attached handler.
-          if (op.kind == kCall || op.kind == kA64Form || op.kind == kX86ShortJump || op.kind == kX86Locked || op.kind == kX86ZMask || op.kind == kTooManyOperands || op.kind == kValidStep) SIM_CHECK(r.handler_calls >= 1, "c14:error-not-reported-to-handler", "%s returned error %u but the attached error handler was never invoked", op_name(op.kind), unsigned(r.err));
+          if (op.kind == kCall || op.kind == kA64Form || op.kind == kX86ShortJump || op.kind == kX86Locked || op.kind == kX86ZMask || op.kind == kTooManyOperands || op.kind == kX86AbsAddr || op.kind == kX86BadRegId || op.kind == kValidStep) SIM_CHECK(r.handler_calls >= 1, "c14:error-not-reported-to-handler", "%s returned error %u but the attached error handler was never invoked", op_name(op.kind), unsigned(r.err));
         }
       }
       else {
@@ -765,11 +808,11 @@ Plan generate(uint64_t seed, bool thorough) {
         op.a[3] = int64_t(r.below(2));
       }
       else {
-        static const uint16_t ks[] = {kBadBind, kBadAlign, kBadEmbedLabel, kBadEmbedDelta, kBadSection, kBadNamedLabel, kBadEmbedArray, kX86ShortJump, kX86Locked, kX86ZMask, kTooManyOperands, kDetachedEmit};
+        static const uint16_t ks[] = {kBadBind, kBadAlign, kBadEmbedLabel, kBadEmbedDelta, kBadSection, kBadNamedLabel, kBadEmbedArray, kX86ShortJump, kX86Locked, kX86ZMask, kTooManyOperands, kDetachedEmit, kX86AbsAddr, kX86BadRegId};
         op.kind = r.pick(ks);
-        if ((op.kind == kX86ShortJump || op.kind == kX86Locked || op.kind == kX86ZMask) && target == 2) op.kind = kBadAlign;
+        if ((op.kind == kX86ShortJump || op.kind == kX86Locked || op.kind == kX86ZMask || op.kind == kX86AbsAddr || op.kind == kX86BadRegId) && target == 2) op.kind = kBadAlign;
         op.a[0] = r.chance(1, 2) ? int64_t(r.below(8)) : -int64_t(1 + r.below(8)); op.a[1] = r.chance(1, 2) ? int64_t(r.below(8)) : -int64_t(1 + r.below(8)); op.a[2] = int64_t(r.below(100));
-        if (op.kind == kBadAlign || op.kind == kBadEmbedArray || op.kind == kBadNamedLabel) op.a[0] = int64_t(r.below(1000));
+        if (op.kind == kBadAlign || op.kind == kBadEmbedArray || op.kind == kBadNamedLabel || op.kind == kX86BadRegId) op.a[0] = int64_t(r.below(1000));
         if (op.kind == kBadEmbedLabel) op.a[1] = int64_t(r.below(1000));
       }
       p.ops.push_back(op);
